@@ -170,6 +170,24 @@ theorem after (h : Lvl ty K b nd tyP L ctx) (hpos : 0 < nd) :
         show 1 + b + fsize L + 1 - 1 = b + fsize L + 1 by omega]
       omega
 
+/-- just before a nested level (in front of the open token of its node) the depth is one less -/
+theorem before (h : Lvl ty K b nd tyP L ctx) (hpos : 0 < nd) :
+    1 ≤ b ∧ depthAt K (b - 1) + 1 = nd := by
+  induction h with
+  | here ty K => omega
+  | @down tyC tyP kidsC L b nd ctx ty pre aC mC ns _ hl ih =>
+    have hr := hl.range
+    refine ⟨by omega, ?_⟩
+    rw [show fsize pre + 1 + b - 1 = fsize pre + b by omega, depthAt_append_pre]
+    by_cases hz : nd = 0
+    · subst hz
+      obtain ⟨hb, _⟩ := hl.zero
+      subst hb
+      simp
+    · obtain ⟨h1, h2⟩ := ih (by omega)
+      rw [depthAt_elem_cons _ _ _ _ _ _ (by omega) (by omega)]
+      omega
+
 /-- tokens around the level -/
 theorem toks (h : Lvl ty K b nd tyP L ctx) :
     ∃ A D : List Tok, A.length = b ∧ ∀ X, ftoks (ctx X) = A ++ ftoks X ++ D := by
@@ -461,6 +479,27 @@ theorem atLevel_flat_aligned (S : Schema) (c : List Node) (ty : TypeId) (L : Lis
       · simp at hY
   · simp at h
 
+/-- the start of a flat range lies in the level of its end -/
+theorem lvl_flat_back {ty tyP : TypeId} {K L : List Node} {b nd : Nat} {ctx : List Node → List Node}
+    (h : Lvl ty K b nd tyP L ctx) (f t tP : Nat) (ht : t = b + tP) (htp : tP ≤ fsize L)
+    (hd : depthAt L tP = 0) (hfl : FlatRange K f t) (hft : f ≤ t) :
+    ∃ fP, f = b + fP ∧ fP ≤ tP ∧ depthAt L fP = 0 := by
+  obtain ⟨d1, _⟩ := h.depth tP htp
+  rw [← ht, hd, Nat.add_zero] at d1
+  by_cases hin : b ≤ f
+  · obtain ⟨d2, _⟩ := h.depth (f - b) (by omega)
+    rw [show b + (f - b) = f by omega, ← hfl.1, d1] at d2
+    exact ⟨f - b, by omega, by omega, by omega⟩
+  · exfalso
+    by_cases hz : nd = 0
+    · subst hz
+      obtain ⟨hb, _⟩ := h.zero
+      omega
+    · obtain ⟨a1, a2⟩ := h.before (by omega)
+      have := hfl.2 (b - 1) (by omega) (by omega)
+      have := hfl.1
+      omega
+
 /-- **a flat replace with a closed slice**: it is the level's own replace, put back in place -/
 theorem replaceKids_flat {S : Schema} {ty tyP : TypeId} {K L : List Node} {b nd : Nat}
     {ctx : List Node → List Node} (h : Lvl ty K b nd tyP L ctx) (c : List Node) (fP tP : Nat)
@@ -507,6 +546,14 @@ theorem splice_drop_mid (k : Nat) : (A ++ C ++ D).drop (A.length + C.length + k)
 theorem splice_get_tail (i : Nat) : (A ++ C ++ D)[A.length + C.length + i]? = D[i]? := by
   rw [List.getElem?_append_right (by simp)]
   simp
+theorem splice_take_pre (k : Nat) (hk : k ≤ A.length) : (A ++ C ++ D).take k = A.take k := by
+  rw [List.append_assoc, List.take_append_of_le_length hk]
+
+theorem splice_drop_pre : (A ++ C ++ D).drop A.length = C ++ D := by
+  rw [List.append_assoc]; exact List.drop_left' rfl
+
+theorem splice_get_pre (i : Nat) (hi : i < A.length) : (A ++ C ++ D)[i]? = A[i]? := by
+  rw [List.append_assoc, List.getElem?_append_left hi]
 end Splice
 
 /-- **the merged flat replace builds what the second step built.**  Two closed, normal-form slices
@@ -624,5 +671,96 @@ theorem replaceKids_merge_flat (S : Schema) (ty : TypeId) (K K1 K2 : List Node) 
   rw [hYM] at hmain
   simp only [Except.map] at hmain
   rw [show t + (t' - f') = b + (tP + k) by omega, hfb, hmain, hr2]
+
+/-- **the mirror image**: the second replace ends where the first one starts (`t' = f`; deleting
+    backwards, typing in front).  The merged step puts `c' ++ c` over `f' … t`. -/
+theorem replaceKids_merge_flat_left (S : Schema) (ty : TypeId) (K K1 K2 : List Node) (f t f' : Nat)
+    (c c' : List Node) (hn : fnorm K = true) (hcn : fnorm c = true) (hcn' : fnorm c' = true)
+    (hr1 : replaceKids S ty K f t ⟨c, 0, 0⟩ = .ok K1)
+    (hr2 : replaceKids S ty K1 f' f ⟨c', 0, 0⟩ = .ok K2)
+    (hfl1 : FlatRange K f t) (hfl2 : FlatRange K1 f' f) :
+    replaceKids S ty K f' t ⟨fappend c' c, 0, 0⟩ = .ok K2 := by
+  obtain ⟨hft, ht, _, _⟩ := replaceKids_ok hr1
+  obtain ⟨hft', ht', _, _⟩ := replaceKids_ok hr2
+  -- the level of `f`
+  obtain ⟨b, nd, tyP, L, ctx, fP, hl, hfb, hfp, hdf⟩ :=
+    lvl_of_pos (depthAt K f) K f ty rfl (by omega) (fnormKids_of_fnorm hn)
+  obtain ⟨tP, htb, hftP, htp, hdt⟩ := lvl_flat hl f t fP hfb hfp hdf hfl1 hft ht
+  have hnL := hl.norm hn
+  -- step 1 inside the level
+  rw [hfb, htb, replaceKids_flat hl c fP tP hftP htp hdf hdt] at hr1
+  cases ha1 : atLevel S ⟨c, 0, 0⟩ tyP L fP tP 0 with
+  | error e => rw [ha1] at hr1; simp [Except.map] at hr1
+  | ok L1 =>
+  rw [ha1] at hr1
+  simp only [Except.map, Except.ok.injEq] at hr1
+  obtain ⟨haf, hat⟩ := atLevel_flat_aligned S c tyP L fP tP L1 hftP htp hdf hdt ha1
+  obtain ⟨Y1, hY1n, hY1t, hY1⟩ := atLevel_flat_spec S c hcn tyP L fP tP hftP htp hdf hdt haf hat hnL
+  rw [ha1] at hY1
+  have hY1e : Y1 = L1 := by
+    split at hY1
+    · exact (Except.ok.inj hY1).symm
+    · cases hY1
+  subst hY1e
+  have hlenA : ((ftoks L).take fP).length = fP := by simp [ftoks_length]; omega
+  have hsz1 : fsize Y1 = fP + fsize c + (fsize L - tP) := by
+    rw [← ftoks_length Y1, hY1t]; simp [ftoks_length]; omega
+  have hbalA : balance ((ftoks L).take fP) = 0 := by
+    rw [← depthAt_balance L fP hfp, hdf]; rfl
+  -- tokens of the new level before `fP`
+  have epre : ∀ k, k ≤ fP → (ftoks Y1).take k = (ftoks L).take k := by
+    intro k hk
+    rw [hY1t, splice_take_pre _ _ _ k (by omega), List.take_take, Nat.min_eq_left hk]
+  -- step 2 happens in the same place
+  have hl1 := hl.replace Y1
+  rw [hr1] at hl1
+  have hd1 : depthAt Y1 fP = 0 := by
+    have h := depthAt_balance Y1 fP (by omega)
+    rw [epre fP (Nat.le_refl _), hbalA] at h
+    omega
+  obtain ⟨fP', hfb', hfP', hdf'⟩ := lvl_flat_back hl1 f' f fP hfb (by omega) hd1 hfl2 hft'
+  rw [hfb', hfb, replaceKids_flat hl1 c' fP' fP hfP' (by omega) hdf' hd1] at hr2
+  cases ha2 : atLevel S ⟨c', 0, 0⟩ tyP Y1 fP' fP 0 with
+  | error e => rw [ha2] at hr2; simp [Except.map] at hr2
+  | ok L2 =>
+  rw [ha2] at hr2
+  simp only [Except.map, Except.ok.injEq] at hr2
+  obtain ⟨haf', hat'⟩ := atLevel_flat_aligned S c' tyP Y1 fP' fP L2 hfP' (by omega) hdf' hd1 ha2
+  obtain ⟨Y2, hY2n, hY2t, hY2⟩ := atLevel_flat_spec S c' hcn' tyP Y1 fP' fP hfP' (by omega) hdf' hd1
+    haf' hat' hY1n
+  rw [ha2] at hY2
+  have hY2v : S.validContent tyP Y2 = true ∧ Y2 = L2 := by
+    split at hY2
+    · rename_i hv; exact ⟨hv, (Except.ok.inj hY2).symm⟩
+    · cases hY2
+  obtain ⟨hval2, hY2e⟩ := hY2v
+  subst hY2e
+  -- the merged range inside the level
+  have hdF : depthAt L fP' = 0 := by
+    have h1 := depthAt_balance Y1 fP' (by omega)
+    rw [hdf', epre fP' hfP'] at h1
+    have h2 := depthAt_balance L fP' (by omega)
+    simp only [Int.natCast_zero] at h1
+    omega
+  have haF : alignedAt L fP' = true := by
+    by_cases he : fP' = fP
+    · rw [he]; exact haf
+    · refine alignedAt_transfer L Y1 fP' hnL hY1n ?_ ?_ haf'
+      · rw [hY1t, splice_get_pre _ _ _ _ (by omega), List.getElem?_take_of_lt (by omega)]
+      · rw [hY1t, splice_get_pre _ _ _ _ (by omega), List.getElem?_take_of_lt (by omega)]
+  obtain ⟨YM, hYMn, hYMt, hYM⟩ := atLevel_flat_spec S (fappend c' c) (fappend_norm _ _ hcn' hcn) tyP L fP'
+    tP (by omega) htp hdF hdt haF hat hnL
+  have hYMe : YM = Y2 := by
+    apply ftoks_inj _ _ hYMn hY2n
+    rw [hYMt, hY2t, fappend_toks, epre fP' hfP']
+    have e := splice_drop_pre ((ftoks L).take fP) (ftoks c) ((ftoks L).drop tP)
+    rw [hlenA, ← hY1t] at e
+    rw [e]
+    simp
+  rw [hYMe, hval2, if_pos rfl] at hYM
+  have hmain := replaceKids_flat (S := S) hl (fappend c' c) fP' tP (by omega) htp hdF hdt
+  rw [hYM] at hmain
+  simp only [Except.map] at hmain
+  rw [hfb', htb, hmain, hr2]
 
 end PM
